@@ -47,12 +47,13 @@ def r18_1_cycles(ctx, rid='R18.1'):
     rs = g.raises()
     anc = g.fi.params[2] if len(g.fi.params) > 2 else None
     ok = bool(rs) and all(S.raise_class(x) == 'RecognitionError' for x in rs) and anc is not None and any(
-        any(t in ('id(%s) in %s' % (node, anc), '%s in %s' % (node, anc)) for t in g.guard_texts(x)) for x in rs)
+        any(g.alpha.atom(a_, p_) in (('id(%s) in %s' % (node, anc), True), ('%s in %s' % (node, anc), True)) for a_, p_ in g.guards(x))
+        for x in rs)
     r.check(ok, 'a node found among its own ancestors raises RecognitionError', g.key('raise'), g.loc(),
             'the cycle check does not raise RecognitionError when a node is met among its own ancestors')
     if anc is not None:
         adds = [c for c in g.walk() if isinstance(c, ast.Call) and isinstance(c.func, ast.Attribute) and norm(c.func.value) == anc
-                and c.func.attr == 'add']
+                and c.func.attr == 'add' and c.args and g.alpha.text(c.args[0]) in ('id(%s)' % node, node)]
         rec = [c for c in g.calls('__check_no_cycles')]
         r.check(bool(adds) and all(any(g.cfg.dominates(g.nid(a_), g.nid(c)) for a_ in adds) for c in rec),
                 'the node is entered into the ancestor set before descending', g.key('ancestors-add'), g.loc(),
@@ -62,7 +63,7 @@ def r18_1_cycles(ctx, rid='R18.1'):
         # the node leaves the ancestor set again on every normal exit after it was entered: otherwise a node referenced twice
         # by siblings ([*a, *a]) is reported as containing itself although the document is a tree
         rems = {g.nid(c) for c in g.walk() if isinstance(c, ast.Call) and isinstance(c.func, ast.Attribute) and norm(c.func.value) == anc
-                and c.func.attr in ('remove', 'discard') and c.args and norm(c.args[0]) in ('id(%s)' % node, node)}
+                and c.func.attr in ('remove', 'discard') and c.args and g.alpha.text(c.args[0]) in ('id(%s)' % node, node)}
         okrem = bool(adds) and bool(rems)
         for a_ in adds:
             for rn in g.cfg.returns():
@@ -85,7 +86,7 @@ def r18_1_cycles(ctx, rid='R18.1'):
             for b in inner[-1:]:
                 t = b.ast
                 alts = t.values if isinstance(t, ast.BoolOp) and isinstance(t.op, ast.Or) else [t]
-                okx = b.pol and all(G.canon_atom(x) in {(a_, True) for a_ in allowed} for x in alts)
+                okx = b.pol and all(g.alpha.atom(x) in {(a_, True) for a_ in allowed} for x in alts)
             r.check(okx, 'the early exit is taken only for scalars and nodes already checked', g.key('early-exit'), g.loc(ret),
                     'the cycle check returns before descending under %s: collections are skipped and `&a [*a]` exhausts the stack again'
                     % [('' if b.pol else 'not ') + norm(b.ast) for b in inner[-1:]])
